@@ -156,4 +156,55 @@ for depth in range(0, 5 if THOROUGH else 4):
             leg.violation(key, f"greenback chain: visible {vis}, expected the alternation {want}; error={st.error!r}")
         if any(n in vis for n in ("await_", "_greenback_shim", "trampoline", "switch")):
             leg.violation(key, f"bridging internals not hidden: {vis}")
+
+# ---- a greenlet started by the task's OWN synchronous code asks for the task's stack (greenback supports await_ from such a
+# nested greenlet: the shim then resumes a greenlet that differs from its child greenlet), with 0..2 further alternations
+def nested(extra):
+    seen = {}
+    def shape(tag):
+        st = stackscope.extract(trio.lowlevel.current_task().coro)
+        seen[tag] = ([f.funcname for f in st.frames if not f.hide], st.error)
+    async def a_leaf(tag):
+        shape(tag)
+        await trio.sleep(0)
+    def s_helper():
+        shape("helper-sync")
+        if extra >= 1:
+            greenback.await_(a_mid())
+            shape("helper-after")
+        return "done"
+    async def a_mid():
+        await trio.sleep(0)
+        if extra >= 2: s_inner()
+        else: shape("mid")
+    def s_inner():
+        greenback.await_(a_leaf("deep"))
+    def s_user():
+        h = greenlet.greenlet(s_helper)
+        assert h.switch() == "done"
+    async def main():
+        await greenback.ensure_portal()
+        await a_leaf("plain")
+        s_user()
+    trio.run(main)
+    return seen
+
+for extra in (0, 1, 2):
+    key = ("greenback-nested-greenlet", extra)
+    leg.case(key, True)
+    try:
+        seen = nested(extra)
+    except BaseException as e:
+        leg.violation(key, f"harness error {e!r}"); continue
+    core = lambda names: [n for n in names if n in ("main", "a_leaf", "s_user", "s_helper", "a_mid", "s_inner")]
+    want = {"plain": ["main", "a_leaf"], "helper-sync": ["main", "s_user", "s_helper"]}
+    if extra >= 1: want["helper-after"] = ["main", "s_user", "s_helper"]
+    if extra == 1: want["mid"] = ["main", "s_user", "s_helper", "a_mid"]
+    if extra == 2: want["deep"] = ["main", "s_user", "s_helper", "a_mid", "s_inner", "a_leaf"]
+    for tag, w in want.items():
+        vis, err = seen.get(tag, (None, None))
+        if vis is None or core(vis) != w or err is not None:
+            leg.violation(key, f"{tag}: visible {vis}, expected {w}; error={err!r}")
+        elif any(n in vis for n in ("await_", "_greenback_shim", "trampoline", "switch")):
+            leg.violation(key, f"{tag}: bridging internals not hidden: {vis}")
 leg.finish(exhaustive=True)
